@@ -137,7 +137,7 @@ pub fn run_phase(phase: &dyn Phase, seed: u64, range: (u64, u64), threads: usize
                         done += 1;
                         if ex.nontrivial { st.digests_nontrivial.push(ex.digest); }
                         if let Some(log) = st.runlog.as_mut() { log.push((run, ex.digest, ex.outcome)); }
-                        if samples.contains(&run) { st.samples.insert(run, sc.to_json()); }
+                        if samples.contains(&run) { st.samples.insert(run, sc.sample_json()); }
                         if let Some(v) = ex.violation {
                             stop_at.fetch_min(run + 1, Ordering::SeqCst);
                             match found.iter_mut().find(|f| f.violation.check_id == v.check_id) {
